@@ -10,6 +10,7 @@ REPLAY = os.path.join(VERIF, 'replay')
 # batteries per property: list of argv lists (cheap first)
 BATTERIES = {
     'C17': [['arena', '5']],
+    'C05': [['gate']],
     'C10': [['dwarf']],
     'C11': [['offsets']],
     'C12': [['customs']],
@@ -22,10 +23,11 @@ BATTERIES = {
     'C19': [['entities']],
     'C16': [['visit'], ['visit-cf', '4', '3'], ['visit-deep', '100000']],
     'C03': [['op'], ['cf', '4', '3'], ['cf', '5', '2']],
-    'C01': [['op'], ['cf', '4', '3']],
+    'C01': [['op'], ['cf', '4', '3'], ['entities'], ['builder', '60']],
+    'C02': [['gc'], ['features'], ['names'], ['entities']],
     'C15': [['builder']],
     'C18': [['replace']],
-    'C20': [['op'], ['cf', '4', '3']],
+    'C20': [['features'], ['op']],
 }
 
 
